@@ -131,6 +131,12 @@ def make_signal(family, n, k, p1=0.0, p2=0.0):
         b = 1 + int(p2 * 3.999)
         x[:a] = x[min(a, n - 1)]
         x[n - b:] = x[max(n - b - 1, 0)]
+    elif family == 'burst':
+        # a few oscillations in the middle of a monotone record: the extrema sit far from both ends, so the
+        # extrema padding needs several passes to reach them
+        c = n * (0.35 + 0.3 * p1)
+        w = max(n * (0.04 + 0.1 * p2), 2.0)
+        x = np.exp(-0.5 * ((t - c) / w) ** 2) * np.cos(TWO_PI * (t - c) / max(w * 0.8, 2.5) + rng.random()) + 0.5 * t / max(n - 1, 1)
     else:
         raise ValueError(family)
     if x.shape[0] != n:
